@@ -14,8 +14,8 @@ class C04(ContCheck):
                    'vector lengths below 2^31']
 
     MANIFEST = dict(
-        technique='Rocq theorems about the executable ideal sorted multiset (ContSpec.v) + extracted-spec/implementation correspondence check and a multiset oracle on all three vector classes',
-        text=('Stage 1 of 2. The ideal ascending multiset is defined in Rocq; theorems for ALL histories: the state is Sorted after '
+        technique='Rocq refinement proofs (pointer-level class models -> ideal object) and theorems about the executable ideal sorted multiset (ContSpec.v) + extracted-spec/implementation correspondence check and a multiset oracle on all three vector classes',
+        text=('The ideal ascending multiset is defined in Rocq; theorems for ALL histories: the state is Sorted after '
               'every prefix, state plus handed-back elements is a permutation of the inserted elements, find returns a stored '
               'element with the probe\'s key iff one is present, remove takes out exactly one such element, and all results depend '
               'only on keys (two runs that differ in the choice among equal elements agree on every key-level observable). The '
@@ -23,7 +23,8 @@ class C04(ContCheck):
               'are compared by key, and a model-independent oracle checks on the implementation\'s own output that iteration and '
               'to_array are ascending and hold exactly the inserted-and-not-removed objects and that find/remove hand back live '
               'objects with the probe\'s key. Pointer-level models (binary search, ordered scans) and refinement proofs are '
-              'stage 2; memory safety is decided by the sanitizer run only.'),
+              'stage 2; memory safety is decided by the sanitizer run only.'
+              " Stage 2 (Properties/C04_array.v, C04_linked_list.v, C04_dlinked_list.v): the pointer-level models of the three classes' vector methods refine the sorted multiset for every history: never a Fault, chain/array stays ascending, contents = inserted minus removed with identities, binary search (array) correct and in bounds, find/remove return stored elements; outputs agree with the ideal multiset up to the class's documented choice among equal keys (compared by key)."),
         design_ref='DESIGN.md section 7, C04')
 
     def oracle(self, case, iout):
